@@ -72,6 +72,33 @@ type wsPlan struct {
 	Byz []wsByz
 }
 
+// wsFlaky is the receiving side's net.Conn with one injectable fault: when armed,
+// the n-th following Read fails once with a timeout error (what an expired read
+// deadline looks like to the websocket.Conn) without consuming anything.
+type wsFlaky struct {
+	net.Conn
+	failIn int         // 0 = not armed; k = the k-th qualifying Read from now fails
+	when   func() bool // a Read qualifies only while this holds (the Conn is draining a refused frame)
+	fired  int
+}
+
+type wsTimeoutErr struct{}
+
+func (wsTimeoutErr) Error() string   { return "vf: i/o timeout (injected read deadline)" }
+func (wsTimeoutErr) Timeout() bool   { return true }
+func (wsTimeoutErr) Temporary() bool { return true }
+
+func (f *wsFlaky) Read(p []byte) (int, error) {
+	if f.failIn > 0 && (f.when == nil || f.when()) {
+		f.failIn--
+		if f.failIn == 0 {
+			f.fired++
+			return 0, wsTimeoutErr{}
+		}
+	}
+	return f.Conn.Read(p)
+}
+
 func wsPayload(op wsOp) []byte {
 	b := make([]byte, op.Len)
 	x := op.Seed*2654435761 + 1
@@ -588,6 +615,12 @@ func wsRun(rt *rapid.T, t *testing.T) {
 			}
 		}
 
+		// (clean configuration only: the byzantine stage has its own wrapper)
+		var flaky [2]*wsFlaky
+		if !byz {
+			flaky[0], flaky[1] = &wsFlaky{Conn: endA}, &wsFlaky{Conn: endB}
+			endA, endB = flaky[0], flaky[1]
+		}
 		var ws [2]*Conn // [0] client, [1] server
 		ready := [2]chan struct{}{make(chan struct{}), make(chan struct{})}
 		var hsErr [2]error
@@ -705,12 +738,27 @@ func wsRun(rt *rapid.T, t *testing.T) {
 						recvOps = append(recvOps, op)
 					}
 				}
+				prevTooLarge := false
 				for i := 0; ; i++ {
 					api := 0
 					if i < len(recvAPI) {
 						api = recvAPI[i]
 					}
 					tk.Step(fmt.Sprintf("receive #%d api=%d", i, api))
+					injected := false
+					if prevTooLarge && flaky[side] != nil && i < len(recvOps) && recvOps[i].Seed%3 != 0 {
+						// the rest of the refused message is drained by this Receive: let
+						// a read deadline expire in the middle of it, then retry
+						// (only while the Conn still holds the refused frame's reader: a
+						// timeout inside the next frame's header is a different matter,
+						// about which the property says nothing)
+						flaky[side].when = func() bool { return c.frameReader != nil }
+						flaky[side].failIn = 1 + int(recvOps[i].Seed>>8)%3
+						injected = true
+						vs.G.Inc("fault.read_timeout_armed_after_refusal")
+					}
+					prevTooLarge = false
+				retry:
 					var r wsRecv
 					switch api {
 					case 0:
@@ -740,6 +788,18 @@ func wsRun(rt *rapid.T, t *testing.T) {
 					if tearing {
 						return
 					}
+					if injected {
+						var te wsTimeoutErr
+						if errors.As(r.Err, &te) {
+							// the injected timeout surfaced: the application retries
+							injected = false
+							vs.G.Inc("fault.read_timeout_during_drain")
+							tr.Ev("%s.recv #%d -> injected read timeout, retrying", name, i)
+							goto retry
+						}
+						flaky[side].failIn = 0
+					}
+					prevTooLarge = r.Err == ErrFrameTooLarge
 					results[d] = append(results[d], r)
 					if r.Err != nil {
 						tr.Ev("%s.recv #%d -> error toolarge=%v", name, i, r.Err == ErrFrameTooLarge)
